@@ -76,6 +76,12 @@ Definition hd_demo : list op :=
    WriteAt 1 1 [88] false; SyncDir [4]; O_RWC 2 [4; 2]; WriteAt 2 0 [70] true; Crash [];
    Slurp [4; 1]; Exists [4; 2]; O_RW1 [4; 1]; WriteAt 1 3 [89] true; Unlink [4; 1]; Crash []; Slurp [4; 1]].
 
+(* a torn write: block size 2, the pending 3-byte write keeps its first block, the
+   pending truncation is dropped *)
+Definition hd_torn : list op :=
+  [O_RWC 1 [1]; SyncDir []; WriteAt 1 0 [65; 66; 67; 68; 69] false; SyncAll 1;
+   WriteAt 1 1 [88; 89; 90] false; SetLen 1 2 false; Crash [1%nat]; Slurp [1]].
+
 (* ---- bytes that were never written never appear ----------------------------------------------- *)
 (* all data bytes handed to a write operation of the history *)
 Definition op_data (o : op) : bytes :=
